@@ -502,6 +502,42 @@ class Lazy(G):
         return L
 
 
+    def boxpair_history(self, cid, ops):
+        """binary operators on pairs of axis-aligned boxes / slabs with endpoints from a tiny grid (shared, adjacent, nested,
+        crossing faces; unbounded ends give rays and lines): unions that are exactly or almost convex, differences with
+        one or two pieces, hulls that add a single face"""
+        r = self.r
+        n = r.randint(1, 3)
+        topo = r.choice(["C", "C", "NNC"])
+        def box(oid):
+            cs = []
+            for i in range(n):
+                lo = r.choice([None, None, 0, 1, 2]); hi = r.choice([None, None, 1, 2, 3])
+                if lo is not None and hi is not None and lo > hi: lo, hi = hi, lo
+                u = " ".join("1" if j == i else "0" for j in range(n)); m = " ".join("-1" if j == i else "0" for j in range(n))
+                if lo is not None: cs.append("%s %d %s" % (">" if topo == "NNC" and r.random() < 0.3 else ">=", -lo, u))
+                if hi is not None: cs.append("%s %d %s" % (">" if topo == "NNC" and r.random() < 0.3 else ">=", hi, m))
+            if not cs: return "new %d %s %d universe" % (oid, topo, n)
+            return "new %d %s %d cons %d %s" % (oid, topo, n, len(cs), " ".join(cs))
+        L = ["case %s" % cid, box(0), box(1)]
+        for o in (0, 1):
+            if r.random() < 0.4: L.append("obs %d %s" % (o, r.choice(["minimized_generators", "minimized_constraints", "generators"])))
+        x = r.choice([0, 1]); op = r.choice(ops)
+        L.append("op %d %s %d" % (x, op, 1 - x))
+        if r.random() < 0.5:
+            L.append(box(2)); L.append("op %d %s 2" % (x, r.choice(ops)))
+        L.append("stall"); L.append("end")
+        return L
+
+
+def make_boxpair_cases(seed, count, ops, start=0):
+    g = Lazy(seed, 3, big=0.0)
+    out = []
+    for i in range(count):
+        out += g.boxpair_history("B%d" % (start + i), ops)
+    return out
+
+
 def make_nncdiv_cases(seed, count, start=0):
     g = Lazy(seed, 2, big=0.0)
     out = []
